@@ -8,6 +8,7 @@ import (
 
 	"github.com/tychoish/fun"
 	"github.com/tychoish/fun/ers"
+	"github.com/tychoish/fun/internal"
 )
 
 // stolen shamelessly from https://github.com/tendermint/tendermint/tree/master/internal/libs/queue
@@ -156,6 +157,7 @@ func (q *Queue[T]) BlockingAdd(ctx context.Context, item T) error {
 		case <-ctx.Done():
 			return ctx.Err()
 		default:
+			internal.VerifPoint("pubsub.wait.before-cond-wait")
 			cond.Wait()
 		}
 	}
@@ -208,6 +210,7 @@ func (q *Queue[T]) unsafeWaitWhileEmpty(ctx context.Context) error {
 		case <-ctx.Done():
 			return ctx.Err()
 		default:
+			internal.VerifPoint("pubsub.wait.before-cond-wait")
 			q.nempty.Wait()
 		}
 	}
@@ -232,6 +235,7 @@ func (q *Queue[T]) waitForNew(ctx context.Context) error {
 		case <-ctx.Done():
 			return ctx.Err()
 		default:
+			internal.VerifPoint("pubsub.wait.before-cond-wait")
 			q.nupdates.Wait()
 		}
 	}
@@ -373,6 +377,7 @@ func (q *Queue[T]) Producer() fun.Producer[T] {
 			}
 
 			q.mu.Unlock()
+			internal.VerifPoint("pubsub.Queue.Producer.unlocked")
 			if err := q.waitForNew(ctx); err != nil {
 				return o, err
 			}
